@@ -747,8 +747,13 @@ func sectionRules(P *Program, r *Result, ruleErr, ruleMap string) {
 			r.add(ruleErr, shortName(rk), "end", "the header ends with success only where no unread byte is left", P.pos(instrPos(ret)), okEnd, "")
 		}
 	}
-	// MAP-KEEP
-	for _, b := range rk.Blocks {
+	// MAP-KEEP (in the dispatch loop, or in a section reader that creates the map it is handed on demand)
+	var mkBlocks []*ssa.BasicBlock
+	mkBlocks = append(mkBlocks, rk.Blocks...)
+	for _, rd := range readers {
+		mkBlocks = append(mkBlocks, rd.Blocks...)
+	}
+	for _, b := range mkBlocks {
 		for _, in := range b.Instrs {
 			mm, ok := in.(*ssa.MakeMap)
 			if !ok {
@@ -763,7 +768,7 @@ func sectionRules(P *Program, r *Result, ruleErr, ruleMap string) {
 					}
 				}
 			}
-			r.add(ruleMap, shortName(rk), "make", "a result map is created only while it is still nil (earlier sections are kept)", P.pos(instrPos(mm)), kept, "")
+			r.add(ruleMap, shortName(b.Parent()), "make", "a result map is created only while it is still nil (earlier sections are kept)", P.pos(instrPos(mm)), kept, "")
 		}
 	}
 }
